@@ -196,3 +196,10 @@ Proof.
 Qed.
 Lemma dot_self_map (f : R -> R) (t : list R) : dot ROps t (map f t) = sum ROps (map (fun x => nmul ROps x (f x)) t).
 Proof. induction t as [|x t IH]; [reflexivity|]. cbn [map dot sum]. rewrite IH. reflexivity. Qed.
+
+(* ---- small grids for the bounded search of a kernel-level counterexample (a TEST, used only to label a broken tie) ---- *)
+Definition zgrid : list Z := [-3; -2; -1; 0; 1; 2; 3; 4; 5; 6; 7; 10; 12]%Z.
+Definition ngrid : list nat := [0; 1; 2; 3; 4; 5; 6; 7; 10; 12]%nat.
+Definition ongrid : list (option nat) := None :: map Some ngrid.
+Definition bgrid : list bool := [false; true].
+Definition first_bad {A : Type} (ok : A -> bool) (grid : list A) : option A := find (fun x => negb (ok x)) grid.
